@@ -132,6 +132,23 @@ fn redaction_event() -> Value {
     json!({"type": "m.room.redaction", "content": {"reason": "spam"}, "redacts": "$ev1:s.example", "event_id": "$redaction:s.example", "sender": "@mod:s.example", "origin_server_ts": 99, "room_id": "!room:s.example"})
 }
 
+/// Values the specification defines as the default of an optional field: ruma omits them when
+/// serialising (documented `skip_serializing_if` rules); their absence loses no information.
+fn omitted_default(ty: &str, path: &str, v: &Value) -> bool {
+    match (ty, path) {
+        ("m.room.server_acl", "/allow_ip_literals") => *v == json!(true),
+        ("m.room.create", "/m.federate") => *v == json!(true),
+        ("m.room.power_levels", "/ban" | "/kick" | "/redact" | "/state_default") => *v == json!(50),
+        ("m.room.power_levels", "/invite" | "/events_default" | "/users_default") => *v == json!(0),
+        ("m.room.power_levels", "/notifications/room") => *v == json!(50),
+        ("m.space.child", "/suggested") | ("m.space.parent", "/canonical") => *v == json!(false),
+        (_, p) if p.ends_with("/is_falling_back") => *v == json!(false),
+        (_, "/passphrase/bits") => *v == json!(256),
+        (_, p) if p.ends_with("/m.mentions/room") => *v == json!(false),
+        _ => false,
+    }
+}
+
 /// Fixpoint check of a content enum; returns s1.
 fn content_fixpoint<C: EventContentFromType + Serialize>(ty: &str, content: &Value, salt: u8, cx: &mut CaseCtx) -> Result<String, String> {
     if !schemas().iter().any(|s| s.ty == ty) {
@@ -168,6 +185,13 @@ fn content_fixpoint<C: EventContentFromType + Serialize>(ty: &str, content: &Val
                 return Err(format!("content of type {ty}: value at {p} changed from {v} to {w} (input {content}, output {s1})"));
             }
         }
+    }
+    // nothing the schema defines is lost (unknown fields are the only thing typed content drops)
+    for (p, v) in &a {
+        if p.contains("org.example.unknown") || b.contains_key(p) || omitted_default(ty, p, v) {
+            continue;
+        }
+        return Err(format!("content of type {ty}: the value {v} at {p} is missing from the serialised content (input {content}, output {s1})"));
     }
     // key order and unknown extra fields do not matter
     let c3 = C::from_parts(ty, &raw(content, salt | 1)?).map_err(|e| format!("key-permuted content fails: {e}"))?;
@@ -400,6 +424,35 @@ fn oracle_with(table: &[Schema], c: &EvCase, cx: &mut CaseCtx) -> Result<(), Str
     Ok(())
 }
 
+#[derive(Serialize, Deserialize, Debug, Clone)]
+pub struct RawCase {
+    pub s: vf_ref::cjson::S,
+}
+
+/// Raw wrapper on arbitrary spellings (escaped keys, duplicate keys, whitespace).
+fn raw_oracle(c: &RawCase, cx: &mut CaseCtx) -> Result<(), String> {
+    use vf_ref::cjson::{S, V};
+    let text = c.s.text();
+    let raw: Raw<Value> = Raw::from_json_string(text.clone()).map_err(|e| format!("Raw::from_json_string rejected valid JSON {text:?}: {e}"))?;
+    if raw.json().get() != text {
+        return Err(format!("Raw does not return the original text byte for byte: {text:?} -> {:?}", raw.json().get()));
+    }
+    let Some(V::Obj(m)) = c.s.value() else { return Ok(()) };
+    cx.class_if(c.s.has_dup_keys(), "duplicate_keys");
+    let escaped = matches!(&c.s, S::Obj(entries, _) if entries.iter().any(|(k, _)| k.iter().any(|(ch, st)| st % 4 != 0 || (*ch as u32) < 0x20 || *ch == '"' || *ch == '\\')));
+    cx.class_if(escaped, "escaped_key_spelling");
+    cx.nontrivial_if(escaped || c.s.has_dup_keys());
+    let probe: Vec<String> = m.keys().cloned().chain(["missing key".to_owned()]).collect();
+    for k in &probe {
+        let got: Option<Value> = raw.get_field(k).map_err(|e| format!("Raw::get_field({k:?}) failed on {text:?}: {e}"))?;
+        let want = m.get(k).map(|v| v.to_serde());
+        if got != want {
+            return Err(format!("Raw::get_field({k:?}) on {text:?} = {got:?}, a full parse (last duplicate wins) gives {want:?}"));
+        }
+    }
+    Ok(())
+}
+
 fn main() {
     let args: Vec<String> = std::env::args().skip(1).collect();
     let id = args.first().cloned().unwrap_or_default();
@@ -431,5 +484,9 @@ fn main() {
     for cls in ["state", "message_like", "ephemeral", "global_account_data", "room_account_data", "to_device", "unknown_type", "redacted_form", "relation", "optional_field_present", "unknown_fields_present"] {
         ck.floor("events", cls, 1000);
     }
+    let n = ck.n(60_000, 2_000_000);
+    ck.prop("raw_wrapper_spellings", n, || vf_ref::cjson::spelled_object(3, true).prop_map(|s| RawCase { s }), raw_oracle);
+    ck.floor("raw_wrapper_spellings", "duplicate_keys", 2000);
+    ck.floor("raw_wrapper_spellings", "escaped_key_spelling", 5000);
     ck.finish()
 }
